@@ -173,18 +173,18 @@ impl Context {
     ) -> (VPtr, TypeNodeId, Vec<StateSkeleton>) {
         let alloc_ty = self.canonical_record_type_id(ty);
         if let Type::Record(type_fields) = alloc_ty.to_type() {
-            let field_exprs_by_name = fields
+            // The initialisers run in the order they are written; only the slot each value
+            // is stored in follows the canonical (sorted) layout.
+            let slots = fields
                 .iter()
-                .map(|field| (field.name, field.expr))
-                .collect::<BTreeMap<_, _>>();
-            let ordered_exprs = type_fields
-                .iter()
-                .map(|type_field| field_exprs_by_name.get(&type_field.key).copied())
+                .map(|field| type_fields.iter().position(|tf| tf.key == field.name))
                 .collect::<Option<Vec<_>>>();
-            if let Some(ordered_exprs) = ordered_exprs
-                && ordered_exprs.len() == fields.len()
+            if let Some(slots) = slots
+                && slots.len() == type_fields.len()
+                && slots.iter().collect::<HashSet<_>>().len() == slots.len()
             {
-                return self.alloc_aggregates(&ordered_exprs, alloc_ty);
+                let items = fields.iter().map(|f| f.expr).collect::<Vec<_>>();
+                return self.alloc_aggregates_at(&items, &slots, alloc_ty);
             }
         }
         self.alloc_aggregates(&fields.iter().map(|f| f.expr).collect::<Vec<_>>(), alloc_ty)
@@ -1940,6 +1940,16 @@ impl Context {
         items: &[ExprNodeId],
         ty: TypeNodeId,
     ) -> (VPtr, TypeNodeId, Vec<StateSkeleton>) {
+        let slots = (0..items.len()).collect::<Vec<_>>();
+        self.alloc_aggregates_at(items, &slots, ty)
+    }
+    /// Evaluates `items` in the given order and stores item `i` into element `slots[i]`.
+    fn alloc_aggregates_at(
+        &mut self,
+        items: &[ExprNodeId],
+        slots: &[usize],
+        ty: TypeNodeId,
+    ) -> (VPtr, TypeNodeId, Vec<StateSkeleton>) {
         let alloc_ty = match ty.to_type() {
             Type::Failure | Type::Unknown => {
                 let inferred_elems = items
@@ -1965,12 +1975,12 @@ impl Context {
         let alloc_insert_point = self.get_current_basicblock().0.len();
         let dst = self.gen_new_register();
         let mut states = vec![];
-        for (i, e) in items.iter().enumerate() {
+        for (e, slot) in items.iter().zip(slots.iter()) {
             let (v, elem_ty, s) = self.eval_expr(*e);
             let ptr = self.push_inst(Instruction::GetElement {
                 value: dst.clone(),
                 ty: alloc_ty, // lazyly set after loops,
-                tuple_offset: i as u64,
+                tuple_offset: *slot as u64,
             });
             states.extend(s);
             self.push_inst(Instruction::Store(ptr, v, elem_ty));
